@@ -147,6 +147,12 @@ Definition mon_segments : monitor_t := fun suite i o =>
 Definition mon_dual : monitor_t := fun suite i o =>
   if name_is suite "dual.meta" then Some (all_equal (vl o)) else None.
 
+(** C11: ServeHTTP returned for every request (the harness abandons a call that does not and reports it) *)
+Definition mon_hang : monitor_t := fun suite i o =>
+  if name_is suite "hang.e2e" then Some false
+  else if name_is suite "poolwrite.e2e" then Some false   (* C14/C15: a released buffer was written to *)
+  else None.
+
 (** * C01 / C03 on the response body: envelopes well-formed, compressed flag and declared
     compression agree with the bytes, messages are the backend's, in order. *)
 From VG Require Import Corr.MonReader Corr.CorrReader Model.Envelope Model.Stream.
